@@ -13,7 +13,7 @@ import dates as D   # noqa: E402
 from parallel import driver_parallel  # noqa: E402
 
 GEN = ['DateK', 'Calendar']
-PROPS = ['FinVerif.Props.C14a', 'FinVerif.Props.C14b', 'FinVerif.Props.C14c']
+PROPS = ['FinVerif.Props.C14a', 'FinVerif.Props.C14b', 'FinVerif.Props.C14c', 'FinVerif.Props.C14d']
 DRIVERS = ['FinVerif.Driver.C14']
 SPEC_DRIVERS = ['FinVerif.Driver.C14Spec']
 
@@ -200,7 +200,7 @@ def run(ctx):
         'the date table was extended to 2201 before the run (table-extension history is decided under C13/C18)',
     ]
     return C.finish(ctx, 'proof',
-                    'lake build FinVerif.Props.C14a FinVerif.Props.C14b && lake env lean .cache/audit/Audit_C14.lean',
+                    'lake build FinVerif.Props.C14a FinVerif.Props.C14b FinVerif.Props.C14c FinVerif.Props.C14d && lake env lean .cache/audit/Audit_C14.lean',
                     C.TRUSTED_BASE_COMMON + ['Spec: rule lists per calendar, Gregorian computus, 1 Mar 1900 = serial 61 = Thursday'],
                     RULE)
 
